@@ -105,3 +105,26 @@ def custom(chk, wc, tier, seed):
         elif err.startswith("timeout"):
             chk.violation("impl-counterexample", {"case": chunk[0] if chunk else "", "oracle": "the race build did not finish: " + err[:200]}, found_input=True)
     chk.cov.setdefault("notes", []).append("race-detector run: %d cases in %d processes, %d with reports" % (len(cases), len(chunks), nrace))
+
+
+def t2(chk, wc, tier, seed):
+    """the runner election of Eval, regenerated from exec/eval.go: the state test and the INIT→WAITING transition happen in
+    one critical section of the task's lock (what BS.Elect's atomic `elect` step stands for), LOST is reset to INIT in that
+    section, and exactly the elected evaluator calls executor.Run."""
+    import re
+    import vlib
+    src = open(wc.repo + "/exec/eval.go").read()
+    try:
+        i = src.index("for _, task := range state.Runnable() {")
+        body = src[i:src.index("go func(task *Task) {", i)]
+    except ValueError:
+        body = ""
+    pos = {k: body.find(k) for k in ("task.Lock()", "task.state == TaskLost", "task.state = TaskInit", "runner := task.state == TaskInit",
+                                      "task.state = TaskWaiting", "go executor.Run(task)", "task.Unlock()")}
+    order_ok = (0 <= pos["task.Lock()"] < pos["task.state == TaskLost"] < pos["task.state = TaskInit"]
+                < pos["runner := task.state == TaskInit"] < pos["task.state = TaskWaiting"] < pos["go executor.Run(task)"]) and pos["task.Unlock()"] < 0
+    guarded = re.search(r"if runner \{\n(?:\t+.*\n)*?\t+go executor\.Run\(task\)", body) is not None
+    gen = "def electAtomicG : Bool := %s\ndef runOnlyByRunnerG : Bool := %s" % ("true" if order_ok else "false", "true" if guarded else "false")
+    ties = [("election_atomic_tie", "theorem election_atomic_tie : electAtomicG = true ∧ runOnlyByRunnerG = true := by decide",
+             "exec/eval.go Eval: lock, LOST→INIT, runner := (state == INIT), INIT→WAITING, executor.Run only if runner — without unlocking in between")]
+    vlib.t2_check(chk, wc, "C19", ["BS.Model.Elect"], gen, ties)
